@@ -180,6 +180,11 @@ func (w *world) exec(f []string) string {
 	case "att":
 		c, ip, a, d, fs := unhexStr(f[1]), ipOf(f[2]), parseAddr(f[3]), parseAtt(strings.Split(f[4], ",")), parseFaults(f[5])
 		undo := installFaults(fs, nil)
+		if w.viaGrpc {
+			out := w.execGRPC(f)
+			undo()
+			return out
+		}
 		r, sig := w.signer.SignBeaconAttestation(ctx, creds(c, ip), a.name, a.key, d)
 		undo()
 		return posStr(r, sig)
@@ -203,21 +208,39 @@ func (w *world) exec(f []string) string {
 			}
 		}
 		undo := installFaults(fs, failRoots)
+		if w.viaGrpc {
+			out := w.execGRPC(f)
+			undo()
+			return out
+		}
 		rs, sigs := w.signer.SignBeaconAttestations(ctx, creds(c, ip), names, keys, data)
 		undo()
 		return manyStr(rs, sigs)
 	case "atts0":
+		if w.viaGrpc {
+			return w.execGRPC(f)
+		}
 		rs, sigs := w.signer.SignBeaconAttestations(ctx, creds(unhexStr(f[1]), ipOf(f[2])), []string{}, [][]byte{}, []*rules.SignBeaconAttestationData{})
 		return manyStr(rs, sigs)
 	case "prop":
 		c, ip, a, d, fs := unhexStr(f[1]), ipOf(f[2]), parseAddr(f[3]), parseProp(strings.Split(f[4], ",")), parseFaults(f[5])
 		undo := installFaults(fs, nil)
+		if w.viaGrpc {
+			out := w.execGRPC(f)
+			undo()
+			return out
+		}
 		r, sig := w.signer.SignBeaconProposal(ctx, creds(c, ip), a.name, a.key, d)
 		undo()
 		return posStr(r, sig)
 	case "sign":
 		c, ip, a, d, fs := unhexStr(f[1]), ipOf(f[2]), parseAddr(f[3]), parseSign(strings.Split(f[4], ",")), parseFaults(f[5])
 		undo := installFaults(fs, nil)
+		if w.viaGrpc {
+			out := w.execGRPC(f)
+			undo()
+			return out
+		}
 		r, sig := w.signer.SignGeneric(ctx, creds(c, ip), a.name, a.key, d)
 		undo()
 		return posStr(r, sig)
@@ -239,6 +262,11 @@ func (w *world) exec(f []string) string {
 			}
 		}
 		undo := installFaults(fs, failRoots)
+		if w.viaGrpc {
+			out := w.execGRPC(f)
+			undo()
+			return out
+		}
 		rs, sigs := w.signer.Multisign(ctx, creds(c, ip), names, keys, data)
 		undo()
 		return manyStr(rs, sigs)
